@@ -34,6 +34,36 @@ def doc_worker(ns, items, res, opts):
                                            f'classifying document {label!r} raised {v[8:]}', document=text, label=label)
 
 
+def encoded_worker(ns, items, res, opts):
+    """Well-formed documents stored in a declared encoding (ISO-8859-1, UTF-16, windows-1252, UTF-8 with BOM, ...), read
+    as bytes, as a file, and through a collection reader: a class or a MosRoMgrException, never a built-in exception."""
+    import os
+    import tempfile
+    import shutil
+    tmp = tempfile.mkdtemp(prefix='mosmc-c12-')
+    try:
+        path = os.path.join(tmp, 'doc.mos.xml')
+        for cls, enc, data in items:
+            with open(path, 'wb') as f:
+                f.write(data)
+            for how, fn in (('from_string(bytes)', lambda: ns.mt.MosFile.from_string(data)),
+                            ('from_file', lambda: ns.mt.MosFile.from_file(path)),
+                            ('MosReader.from_file', lambda: ns.mc.MosReader.from_file(path).mos_object),
+                            ('MosReader.from_string(bytes)', lambda: ns.mc.MosReader.from_string(data).mos_object)):
+                res.transitions += 1
+                res.nontrivial += 1
+                try:
+                    fn()
+                    res.by_outcome['classify:encoded:ok'] += 1
+                except ns.exc.MosRoMgrException as e:
+                    res.by_outcome['classify:encoded:' + type(e).__name__] += 1
+                except Exception as e:  # noqa
+                    explore.add_simple_finding(res, opts['prop'], f'CLASSIFY:encoded:{enc}:{how}:{type(e).__name__}',
+                                               f'{cls} stored as {enc}: {how} raised {type(e).__name__}: {e}', cls=cls, encoding=enc)
+    finally:
+        shutil.rmtree(tmp, ignore_errors=True)
+
+
 def run(tier):
     parts = story_item_parts(tier, [mon_library_exceptions])
     names = list(coll.pool_nasty())
@@ -41,11 +71,12 @@ def run(tier):
     docs = [d for d in c08.documents(tier) if not d[0].startswith(('prefix:', 'deletion:', 'not-xml:'))]
     enum_parts = [{'label': 'collection-merges-self-referential-messages', 'worker': c09.worker, 'items': seqs,
                    'opts': {'c12': True, 'nasty': True}, 'chunk': 20},
-                  {'label': 'classification-of-well-formed-documents', 'worker': doc_worker, 'items': docs, 'chunk': 100}]
+                  {'label': 'classification-of-well-formed-documents', 'worker': doc_worker, 'items': docs, 'chunk': 100},
+                  {'label': 'classification-of-documents-in-declared-encodings', 'worker': encoded_worker, 'items': list(c08.encoded_docs()), 'chunk': 40}]
     return runner.graph_check(
         'C12', tier, parts, rule=RULE + ' Plus: every sequence (length <= 2, thorough 3) over a pool of self-referential / '
         'blank / repeated-ID / unresolvable messages merged through MosCollection strict and non-strict (non-strict must run '
-        'to the end), and the classification of every well-formed H-DOC document.', vacuity=vacuity, enum_parts=enum_parts,
+        'to the end), and the classification of every well-formed H-DOC document (as str; and, stored in a declared non-UTF-8 encoding, as bytes, as a file and through a collection reader).', vacuity=vacuity, enum_parts=enum_parts,
         assumptions=['schema-shaped = required tags present (IDs may be blank, unknown, repeated, self-referential); '
                      'roStoryInsert/roItemInsert/roItemReplace/roStoryReplace without their reference tag are not schema-shaped and are skipped',
                      'bounds as listed per part'])
